@@ -485,3 +485,98 @@ impl WorkerTree {
         Ok(())
     }
 }
+
+/// Read-only view of a [`WorkerTree`] for the external verification harness (property C10).
+/// Only compiled with the `verif-hooks` feature; nothing here changes behaviour.
+#[cfg(feature = "verif-hooks")]
+#[derive(Debug, Clone, Default)]
+pub struct VerifWorkerTreeDump {
+    /// (graph node index, source, output, status, error text, item external dependencies);
+    /// status is one of `not_started`, `in_progress`, `ok`, `err`
+    pub items: Vec<(usize, PathBuf, PathBuf, &'static str, String, Vec<PathBuf>)>,
+    /// `node_map`: source path -> graph node index
+    pub node_map: Vec<(PathBuf, usize)>,
+    /// `external_dependencies`: path -> (graph node index, whether the index is occupied)
+    pub external_dependencies: Vec<(PathBuf, Vec<(usize, bool)>)>,
+    pub remove_files: Vec<PathBuf>,
+    pub last_configuration_hash: Option<u64>,
+    pub output_structure: Option<Vec<(PathBuf, bool)>>,
+    pub edge_count: usize,
+}
+
+#[cfg(feature = "verif-hooks")]
+impl WorkerTree {
+    pub fn verif_dump(&self) -> VerifWorkerTreeDump {
+        let mut items: Vec<_> = self
+            .graph
+            .node_indices()
+            .filter_map(|index| {
+                self.graph.node_weight(index).map(|item| {
+                    let (status, error) = match &item.status {
+                        WorkStatus::NotStarted => ("not_started", String::new()),
+                        WorkStatus::InProgress(_) => ("in_progress", String::new()),
+                        WorkStatus::Done(Ok(())) => ("ok", String::new()),
+                        WorkStatus::Done(Err(err)) => ("err", err.to_string()),
+                    };
+                    let mut external: Vec<_> =
+                        item.external_file_dependencies.iter().cloned().collect();
+                    external.sort();
+                    (
+                        index.index(),
+                        item.data.source().to_path_buf(),
+                        item.data.output().to_path_buf(),
+                        status,
+                        error,
+                        external,
+                    )
+                })
+            })
+            .collect();
+        items.sort();
+        let mut node_map: Vec<_> = self
+            .node_map
+            .iter()
+            .map(|(path, index)| (path.clone(), index.index()))
+            .collect();
+        node_map.sort();
+        let mut external_dependencies: Vec<_> = self
+            .external_dependencies
+            .iter()
+            .map(|(path, container)| {
+                let mut indexes: Vec<_> = container
+                    .iter()
+                    .map(|index| (index.index(), self.graph.contains_node(*index)))
+                    .collect();
+                indexes.sort();
+                (path.clone(), indexes)
+            })
+            .collect();
+        external_dependencies.sort();
+        VerifWorkerTreeDump {
+            items,
+            node_map,
+            external_dependencies,
+            remove_files: self.remove_files.clone(),
+            last_configuration_hash: self.last_configuration_hash,
+            output_structure: self.output_structure.as_ref().map(|structure| {
+                let mut entries: Vec<_> = structure
+                    .iter()
+                    .map(|(path, is_file)| (path.clone(), *is_file))
+                    .collect();
+                entries.sort();
+                entries
+            }),
+            edge_count: self.graph.edge_count(),
+        }
+    }
+
+    /// `snapshot_output_structure` is crate-private; `darklua_core::process` calls it before
+    /// the first `collect_work`. This wrapper lets the harness build a tree step by step.
+    pub fn verif_snapshot_output_structure(
+        &mut self,
+        resources: &Resources,
+        location: &Path,
+    ) -> DarkluaResult<()> {
+        self.snapshot_output_structure(resources, location)
+    }
+}
